@@ -31,6 +31,8 @@ ASSUMPTIONS = [
     "serialisation fail that succeeds without them",
 ]
 
+WELL_KNOWN = ["http://purl.org/dc/terms/", "https://schema.org/", "http://xmlns.com/foaf/0.1/", "http://www.w3.org/2002/07/owl#",
+              "http://www.w3.org/2001/XMLSchema#"]
 SAFE_PREFIXES = ["ex", "a", "ns2", "x1", "", "ü", "p_q", "long" * 5]
 
 
@@ -43,6 +45,9 @@ def ns_case(draw):
     stmts = draw(gen.statement_seq(arity=arity, mode=mode, max_len=8))
     stmt_prefixes = sorted({i[:max(i.rfind("#"), i.rfind("/")) + 1] for s in stmts for t in s for i in T.iris_of(t)})
     pool = st.one_of(scen.ns_iris, st.sampled_from(stmt_prefixes)) if stmt_prefixes else scen.ns_iris
+    if integration == "rdflib":
+        # namespaces that every default rdflib Graph / Dataset already binds under another prefix (dcterms, schema, ...)
+        pool = st.one_of(pool, pool, st.sampled_from(WELL_KNOWN))
     if integration == "generic":
         names = st.one_of(st.sampled_from(SAFE_PREFIXES), st.text(max_size=6))
     else:
@@ -304,12 +309,15 @@ def body(case, acc):
     got_map = {p: tuple(i) for p, i in pyj.sink_namespaces(sink, integ)}
     want_map = {p: tuple(i) for p, i in truth}
     if integ == "rdflib":
-        # the receiving rdflib object starts with rdflib's own default bindings
+        # the receiving rdflib object starts with rdflib's own default bindings; what binding the declared pairs in
+        # order does to them is rdflib's rule (a namespace moves to the newly declared prefix): model = rdflib itself
+        import rdflib
         from rdflib import Dataset, Graph
 
         base = Dataset() if case["phys"] != "TRIPLES" else (Graph() if case["graph_defaults"] else Graph(bind_namespaces="none"))
-        for p, i in base.namespaces():
-            want_map.setdefault(p, tuple(T.from_rdflib(i)))
+        for p, i in truth:
+            base.bind(p, rdflib.URIRef(i[1]))
+        want_map = {p: tuple(T.from_rdflib(i)) for p, i in base.namespaces()}
     if got_map != want_map:
         diff = {k: (got_map.get(k), want_map.get(k)) for k in set(got_map) | set(want_map) if got_map.get(k) != want_map.get(k)}
         return Violation("C14:namespaces-after-parse-differ", f"differences (got, bound): {diff!r}", case)
